@@ -633,6 +633,9 @@ func (s *Subtitles) Merge(i *Subtitles) {
 	s.Order()
 
 	// Add regions
+	if s.Regions == nil && len(i.Regions) > 0 {
+		s.Regions = make(map[string]*Region)
+	}
 	for _, region := range i.Regions {
 		if _, ok := s.Regions[region.ID]; !ok {
 			s.Regions[region.ID] = region
@@ -640,6 +643,9 @@ func (s *Subtitles) Merge(i *Subtitles) {
 	}
 
 	// Add styles
+	if s.Styles == nil && len(i.Styles) > 0 {
+		s.Styles = make(map[string]*Style)
+	}
 	for _, style := range i.Styles {
 		if _, ok := s.Styles[style.ID]; !ok {
 			s.Styles[style.ID] = style
